@@ -1,9 +1,9 @@
 import warnings; warnings.simplefilter('ignore')
+import sys, json, glob; sys.path.insert(0,'/verif')
 import cirq, numpy as np
-class OnlyApply:
-    def __init__(self, inner): self.inner=inner
-    def _num_qubits_(self): return cirq.num_qubits(self.inner)
-    def _apply_channel_(self, args): return cirq.apply_channel(self.inner, args)
-for inner in [cirq.S.with_probability(0.3), cirq.MixedUnitaryChannel([(0.25, cirq.testing.random_unitary(2, random_state=1)), (0.75, np.eye(2))]), cirq.bit_flip(0.2)]:
-    got=cirq.kraus(OnlyApply(inner), None)
-    print(type(inner).__name__, None if got is None else np.allclose(cirq.kraus_to_superoperator(got), cirq.kraus_to_superoperator(cirq.kraus(inner)), atol=1e-6))
+f=glob.glob('/verif/replays/C06_*.json')[0]
+c=json.load(open(f))['concrete_call']
+circ=eval(c['args']['circuit'])
+print(circ)
+out=cirq.merge_k_qubit_unitaries(circ, k=2, context=cirq.TransformerContext(tags_to_ignore=('ignore',), deep=False))
+print(out)
